@@ -31,6 +31,8 @@ type runSpec struct {
 	MaxSteps int64
 	Samples  [2]int // quick, thorough (0 = default 40 / 400)
 	ValueCap int
+	// NoMapOrder: this run does not explore map iteration orders (spec.MapOrder is ignored)
+	NoMapOrder bool
 }
 
 type spec struct {
@@ -279,7 +281,13 @@ func check(id, tier string, seed int64, workers int, verbose bool, only string, 
 		if os.Getenv("SYMGO_STEPPROFILE") != "" && workers == 1 {
 			symgo.StepProfile = map[string]int64{}
 		}
-		res := symgo.Explore(ld.prog, fn, args, cfg, opts)
+		runCfg := cfg
+		if r.NoMapOrder {
+			c := *cfg
+			c.MapOrderFuncs = map[string]bool{}
+			runCfg = &c
+		}
+		res := symgo.Explore(ld.prog, fn, args, runCfg, opts)
 		if symgo.StepProfile != nil {
 			type kv struct {
 				k string
